@@ -447,6 +447,7 @@ namespace c16
       else if(g.kind == "lapl") { Assembly::Common::LaplaceOperator op; ok = dispatch1(op); }
       else if(g.kind == "mass2") { Assembly::Common::IdentityOperator op; ok = dispatch2(op); }
       else if(g.kind == "deriv") { Assembly::Common::TrialDerivativeOperator op(g.deriv); ok = dispatch2(op); }
+      else if(g.kind.rfind("dudv", 0) == 0) { int ab = std::stoi(g.kind.substr(4)); Assembly::Common::DuDvOperator op(ab / dim, ab % dim); ok = dispatch1(op); }
       else if(g.kind == "derivt1") { Assembly::Common::TestDerivativeOperator op(g.deriv); ok = dispatch1(op); }
       else if(g.kind == "derivt") { Assembly::Common::TestDerivativeOperator op(g.deriv); ok = dispatch2(op); }
       else if(g.kind == "force")
